@@ -318,8 +318,8 @@ Definition enforce_ok (p : project) : bool :=
   forallb (fun c => forallb (fun m => negb (is_nil (effective_security (p_config p) c m))) (c_methods c))
           (p_controllers p).
 
-(* ... and two operations with the same verb whose path templates differ only in their
-   parameter names (/{a} vs /{b}): kin-openapi treats them as one template *)
+(* ... and two operations (whatever their verbs) whose path templates differ only in their
+   parameter names (/{a} vs /{b}): kin-openapi looks path items up by the normalised template *)
 Fixpoint erase_param_names (inside : bool) (p : str) : str :=
   match p with
   | [] => []
@@ -334,8 +334,7 @@ Fixpoint templates_distinct (d : list operation) : bool :=
   match d with
   | [] => true
   | o :: t =>
-      negb (existsb (fun o' => str_eqb (o_verb o) (o_verb o') &&
-                               str_eqb (erase_param_names false (o_path o)) (erase_param_names false (o_path o')) &&
+      negb (existsb (fun o' => str_eqb (erase_param_names false (o_path o)) (erase_param_names false (o_path o')) &&
                                negb (str_eqb (o_path o) (o_path o'))) t)
       && templates_distinct t
   end.
